@@ -359,6 +359,33 @@ func c15Others(t *rapid.T, ev *evProp) {
 		if err, pn := pairVerify(e, e.G, e.H, xu, yu, xd, yd, prf); err != nil || pn != "" {
 			violationOrKnown(t, ev, "C15/sequences/complete", "honest sequence shuffle rejected: %v %s\n%s", err, pn, ctx)
 		}
+		// several verifiers, each with its own challenge vector, ask for a proof of the SAME shuffle (and
+		// the same prover may be run again): every one of these honest proofs verifies
+		for round := 2; round <= 3; round++ {
+			es2 := make([]kyber.Scalar, nq)
+			for j := range es2 {
+				es2[j] = g.Scalar().Pick(st)
+			}
+			pv := prover
+			if round == 2 {
+				var e2 error
+				if pv, e2 = getProver(es2); e2 != nil {
+					violationOrKnown(t, ev, "C15/sequences/prove", "getProver failed for a second challenge vector: %v\n%s", e2, ctx)
+					break
+				}
+			} else {
+				es2 = es // the first prover run again
+			}
+			prf2, e2 := proof.HashProve(e.suite, "PairShuffle", pv)
+			if e2 != nil {
+				violationOrKnown(t, ev, "C15/sequences/prove", "proof #%d of the same shuffle failed: %v\n%s", round, e2, ctx)
+				break
+			}
+			xu2, yu2, xd2, yd2 := shuffle.GetSequenceVerifiable(g, X, Y, xb, yb, es2)
+			if err, pn := pairVerify(e, e.G, e.H, xu2, yu2, xd2, yd2, prf2); err != nil || pn != "" {
+				violationOrKnown(t, ev, "C15/sequences/complete-repeat", "honest proof #%d of the same sequence shuffle rejected: %v %s\n%s", round, err, pn, ctx)
+			}
+		}
 		// tamper one element of one sequence of the output
 		j, i := rapid.IntRange(0, nq-1).Draw(t, "tj"), rapid.IntRange(0, k-1).Draw(t, "ti")
 		saved := yb[j][i]
